@@ -675,6 +675,12 @@ def _res_and_then(eng, st, args, ci):
                            lambda s, e: [(s, 'ret', Enum('Result', 1, {1: Tup([e])}))])
 
 
+@intrinsic(r'^((std|core)::result::)?Result::<.*>::and::<', 'Result::and (both operands already evaluated)')
+def _res_and(eng, st, args, ci):
+    a, b = args
+    return _fork_on_result(eng, st, a, lambda s, x: [(s, 'ret', b)], lambda s, e: [(s, 'ret', Enum('Result', 1, {1: Tup([e])}))])
+
+
 @intrinsic(r'^((std|core)::result::)?Result::<.*>::ok$', 'Result::ok')
 def _res_ok(eng, st, args, ci):
     v = args[0]
@@ -1123,6 +1129,50 @@ def _filter_map_next(eng, st, args, ci):
     return results
 
 
+@intrinsic(r'^<(std::iter::)?Filter<(std|core)::slice::Iter<.*>, .*> as (std::iter::)?Iterator>::next$', 'Filter<slice::Iter>::next (forks on the predicate per element; the cursor advances)')
+def _filter_next(eng, st, args, ci):
+    fr = args[0]
+    if not isinstance(fr, Ref):
+        raise Unsupported('Filter::next on a non-reference')
+    fv = eng.read_ref(st, fr)
+    it, f = fv.items
+    ref, pos = it.items
+    seq = eng.read_ref(st, ref)
+    p = pos.concrete()
+    n = len(seq.items)
+    results = []
+    live = [st]
+    for j in range(p, n):
+        nxt = []
+        for s in live:
+            el = Ref(ref.key, ref.projs + (('cindex', j),), False)
+            arg = eng.ref_to(s, el, False, 'flt')            # the predicate takes &Self::Item = &&T
+            for (s2, kind, val) in eng.call_value(s, f, [arg], None):
+                if kind != 'ret':
+                    results.append((s2, kind, val))
+                    continue
+                t_ok = eng.feasible(s2, val)
+                f_ok = eng.feasible(s2, z3.Not(val))
+                adv = Tup([Tup([ref, bv_const(j + 1, 'usize')], it.name), f], fv.name)
+                if t_ok and f_ok:
+                    s3 = s2.fork()
+                    s3.assume(z3.Not(val))
+                    nxt.append(s3)
+                    s2.assume(val)
+                    eng.write_ref(s2, fr, adv)
+                    results.append((s2, 'ret', some(el)))
+                elif t_ok:
+                    eng.write_ref(s2, fr, adv)
+                    results.append((s2, 'ret', some(el)))
+                elif f_ok:
+                    nxt.append(s2)
+        live = nxt
+    for s in live:
+        eng.write_ref(s, fr, Tup([Tup([ref, bv_const(n, 'usize')], it.name), f], fv.name))
+        results.append((s, 'ret', NONE))
+    return results
+
+
 # ---------------------------------------------------------------- VecDeque / Vec::remove / str::to_owned (sequences of concrete length)
 
 @intrinsic(r'^(std::collections::)?VecDeque::<.*>::(new|with_capacity)$', 'VecDeque::new/with_capacity')
@@ -1171,7 +1221,7 @@ def _str_to_owned(eng, st, args, ci):
 
 # ---------------------------------------------------------------- generic lazy iterator adaptors (map / filter / filter_map) and consumers
 
-_ITER_TYS = r'(std::slice::Iter|core::slice::Iter|std::vec::IntoIter|Map|Filter|FilterMap|std::iter::Map|std::iter::Filter|std::iter::FilterMap|std::iter::Take|Take|TakeWhile|std::iter::TakeWhile|Rev|std::iter::Rev|Chars|std::str::Chars|Bytes|std::str::Bytes)'
+_ITER_TYS = r'(FlatMap|std::iter::FlatMap|std::slice::Iter|core::slice::Iter|std::vec::IntoIter|Map|Filter|FilterMap|std::iter::Map|std::iter::Filter|std::iter::FilterMap|std::iter::Take|Take|TakeWhile|std::iter::TakeWhile|Rev|std::iter::Rev|Chars|std::str::Chars|Bytes|std::str::Bytes)'
 
 
 @intrinsic(r'^<' + _ITER_TYS + r'<.*> as (std::iter::)?Iterator>::(map|filter|filter_map)::<', 'Iterator::{map,filter,filter_map} (lazy adaptors; closure bodies = real MIR)', prio=1)
@@ -1244,6 +1294,24 @@ def drain(eng, st, it):
                 live = nxt
             out.extend(live)
         return out
+    if it.name == 'FlatMap':
+        inner, f = it.items
+        out = []
+        for (s, items) in drain(eng, st, inner):
+            live = [(s, [])]
+            for item in items:
+                nxt = []
+                for (s1, acc) in live:
+                    for (s2, kind, val) in eng.call_value(s1, f, [item], None):
+                        if kind != 'ret':
+                            raise Unsupported('flat_map closure did not return: %s %r' % (kind, val))
+                        val = _deref_arg(eng, s2, val)
+                        if not isinstance(val, Seq):
+                            raise Unsupported('flat_map closure result %r' % (val,))
+                        nxt.append((s2, acc + list(val.items)))
+                live = nxt
+            out.extend(live)
+        return out
     if it.name == 'TakeWhile':
         inner, f = it.items
         out = []
@@ -1313,6 +1381,11 @@ def _iter_take(eng, st, args, ci):
         cell = eng.ref_to(s, Seq(list(items[:n])), False, 'take')
         res.append((s, 'ret', Tup([cell, bv_const(0, 'usize')], 'OwnedIter')))
     return res
+
+
+@intrinsic(r'^<' + _ITER_TYS + r'<.*> as (std::iter::)?Iterator>::flat_map::<', 'Iterator::flat_map over closures returning Vec (lazy adaptor; closure = real MIR)', prio=2)
+def _iter_flat_map(eng, st, args, ci):
+    return Tup([args[0], args[1]], 'FlatMap')
 
 
 @intrinsic(r'^<' + _ITER_TYS + r'<.*> as (std::iter::)?Iterator>::take_while::<', 'Iterator::take_while (lazy adaptor; predicate = real closure MIR)', prio=2)
